@@ -74,6 +74,9 @@ def spec_auto(size):
     return 2 ** exp
 
 
+from harness.common import translated_tie as common_translated_tie  # noqa: E402
+
+
 def run(tier, seed, replay=None):
     use_repo()
     from torrentfile import utils
@@ -281,6 +284,7 @@ def run(tier, seed, replay=None):
         want = spec_accepts(v) if kind == "i" else spec_str(v)
         if model != (("ok", want) if want is not None else ("ple", None)):
             run.fail("spec-vs-ref", {"value": (dec(v) if kind == "i" else str(v))[:50]}, {"model": out, "ref": want})
+    common_translated_tie(run, ["normalize_piece_length", "get_piece_length"])
     return run.finish()
 
 
